@@ -814,6 +814,10 @@ type c10Case struct {
 	Shuf int64   `json:"shuf"` // seed of the map-run shuffle
 	V    *c10Cfg `json:"v"`
 	B    *c10Cfg `json:"b,omitempty"`
+	// diffmerge only: when set, the value the difference is merged into is not freshly decoded from V: it was decoded
+	// from Pre and has already taken the difference Pre -> V (a struct that lives on through several updates: its slices
+	// keep the capacity, and whatever lies beyond the length, of what they held before)
+	Pre  *c10Cfg `json:"pre,omitempty"`
 	Key  string  `json:"key"`
 	// observed (recomputed on replay)
 	EncClass  int      `json:"enc_class"`
@@ -886,6 +890,33 @@ func c10RunImpl(c *c10Case) {
 		if cls == 0 {
 			prior = reflect.New(T.rt)
 			c.Dout = c10DecodeRun(T, din, prior)
+		}
+		if c.Pre != nil && cls == 0 && c.Dout != nil && c.Dout.Class == 0 {
+			// the same content, reached another way: decoded from Pre, then updated to V by a difference
+			cls0, _, din0 := c10EncodeRun(T, c.Pre, c.Shuf+2)
+			p2 := reflect.New(T.rt)
+			ok := cls0 == 0
+			if ok {
+				d0 := c10DecodeRun(T, din0, p2)
+				ok = d0 != nil && d0.Class == 0
+			}
+			if ok {
+				var d data.Points
+				ok = c10Protect(func() error {
+					var err error
+					d, err = data.DiffPoints[any](c10Build(T, c.Pre).Interface(), c10Build(T, c.V).Interface())
+					return err
+				}) == 0
+				if ok {
+					ok = c10Protect(func() error { return data.MergePoints(string(c.V.ID), d, p2.Interface()) }) == 0
+				}
+			}
+			// only when that update gave V's content exactly is the longer-lived value used in place of the fresh one
+			if ok {
+				if o2 := c10OutOf(T, 0, p2); o2.Cfg != nil && c.Dout.Cfg != nil && o2.Cfg.val() == c.Dout.Cfg.val() {
+					prior = p2
+				}
+			}
 		}
 		a, b := c10Build(T, c.V), c10Build(T, c.B)
 		// where a slice of the second value is a proper prefix of the first value's, the second value holds it the way
@@ -1456,6 +1487,30 @@ func c10GenCase(r *rand.Rand, kind string) *c10Case {
 		g.noBlank = true
 		c.V = g.cfg(T)
 		c.B = g.mutate(T, c.V)
+		if !g.boundary && r.Intn(3) == 0 {
+			// a value with a history: Pre -> V shrinks its slices, V -> B lets them grow again inside what they held,
+			// with zero entries that are not the last
+			c.Pre = c.V
+			c.V = g.mutate(T, c.Pre)
+			for i, f := range T.fields {
+				if f.kind == 2 && !f.edge && len(c.Pre.Vals[i].L) >= 3 {
+					c.V.Vals[i] = c10CopyFV(c.Pre.Vals[i])
+					c.V.Vals[i].L = c.V.Vals[i].L[:1+r.Intn(len(c.Pre.Vals[i].L)-2)]
+				}
+			}
+			c.B = g.mutate(T, c.V)
+			for i, f := range T.fields {
+				if f.kind == 2 && !f.edge && len(c.Pre.Vals[i].L) >= 3 && r.Intn(4) != 0 {
+					nv := c10CopyFV(c.V.Vals[i])
+					zero := c10PV{K: nv.L[0].K}
+					for len(nv.L) < len(c.Pre.Vals[i].L)-1 {
+						nv.L = append(nv.L, zero)
+					}
+					nv.L = append(nv.L, g.prim(f.prim))
+					c.B.Vals[i] = nv
+				}
+			}
+		}
 	} else {
 		c.V = g.cfg(T)
 	}
